@@ -98,7 +98,7 @@ def exWorld : World :=
 
 def exHistory : List (Side × Op) :=
   [(.client, .keyUpdate true), (.server, .keyUpdate false), (.client, .write [1, 2, 3]),
-   (.server, .read (some 2) 1), (.server, .requestClientAuth), (.client, .read none 0),
+   (.server, .read (some 2) 1), (.server, .requestClientAuth 0), (.client, .read none 0),
    (.server, .read none 0), (.server, .read none 0), (.client, .heartbeat [9, 9] 16),
    (.server, .read none 0), (.client, .read none 0), (.server, .inject (.hsOther 1))]
 
@@ -208,7 +208,7 @@ theorem unsolicited_control_fatal (l : Local) (m : Msg) (rest : List Rec) (d : N
   · simp [shutdown_me, fatalOn, popped]
 
 example : fatalDesc exWorld.c (.keyUpdate 2) = some 47 ∧ fatalDesc exWorld.s (.certificate 0 1) = some 10 ∧
-    fatalDesc { exWorld.c with hasKeypair := false } (.certRequest 5 false) = some 10 ∧
+    fatalDesc { exWorld.c with hasKeypair := false } (.certRequest 5 0) = some 10 ∧
     fatalDesc { exWorld.c with hbSupported := false } (.heartbeat 1 [1] 16) = some 10 := by decide
 
 /-- the hypotheses are satisfiable: a client whose next record is KeyUpdate with request byte 2 -/
@@ -322,7 +322,11 @@ theorem gen_keyupdate_order_matches_model :
 theorem gen_send_error_sites_match_model :
     Gen.Conn.sendErrorSites.lookup "_handle_keyupdate_request" = some [47] ∧
     Gen.Conn.sendErrorSites.lookup "_handle_srv_pha" = some [47, 47, 47, 47, 51, 116, 51] ∧
-    Gen.Conn.sendErrorSites.lookup "_handle_pha" = some [50, 109, 80] ∧
-    Gen.Conn.sendErrorSites.lookup "readAsync" = some [50] := by decide
+    Gen.Conn.sendErrorSites.lookup "_handle_pha" = some [50, 109, 40, 80] ∧
+    Gen.Conn.sendErrorSites.lookup "readAsync" = some [50] ∧
+    -- the client's answers to a CertificateRequest whose signature_algorithms are usable / empty / unusable
+    (runLocal (.read none 0) ⟨exWorld.c, ⟨[⟨0, .certRequest 7 1⟩], false⟩, {}⟩).1 = .err (.localAlert 109) ∧
+    (runLocal (.read none 0) ⟨exWorld.c, ⟨[⟨0, .certRequest 7 2⟩], false⟩, {}⟩).1 = .err (.localAlert 40) ∧
+    (runLocal (.read none 0) ⟨exWorld.c, ⟨[⟨0, .certRequest 7 0⟩], false⟩, {}⟩).1 = .bytes [] := by decide +kernel
 
 end Tls.Conn
